@@ -316,7 +316,7 @@ func init() {
 	core.Register(&core.Check{
 		ID:    "C14",
 		Level: "exploration",
-		Rule: "all strings over the 19-character alphabet {0 1 a n + - < = ( [ , \" \\ . blank tab newline ;} (n so that the \\n escape occurs, - so that operator runs of different characters occur) up to length 6 (quick) / 7 (thorough), each lexed by the real Lexer under iteration fuel and by an independent tokenizer written from the Readme's token regexes; accepted strings are additionally checked for the span/gap/end-marker invariants and re-lexed under every single-gap layout variation (blank, tab, trailing comment); " +
+		Rule: "(plus every string of at most 4 (quick) / 5 (thorough) characters over all 13 operator characters, all 8 punctuation characters, a letter, a digit and a blank) all strings over the 19-character alphabet {0 1 a n + - < = ( [ , \" \\ . blank tab newline ;} (n so that the \\n escape occurs, - so that operator runs of different characters occur) up to length 6 (quick) / 7 (thorough), each lexed by the real Lexer under iteration fuel and by an independent tokenizer written from the Readme's token regexes; accepted strings are additionally checked for the span/gap/end-marker invariants and re-lexed under every single-gap layout variation (blank, tab, trailing comment); " +
 			"distinct = distinct string; non-trivial = strings the lexer accepts with at least one real token",
 		Assumptions: []string{
 			"inputs on which the lexer exhausts its fuel (termination is C06's subject) and inputs the regexes do not settle (a digit run ending in '.') are skipped and counted",
@@ -374,5 +374,16 @@ func c14Run(w *core.W) {
 		}
 		return true
 	}
+	if !rec(0) {
+		return
+	}
+	// every operator and punctuation character of the token language (the main alphabet has only four of them)
+	w.Family("operator-characters")
+	alpha = specSticky + specNotSticky + "a1 "
+	maxLen = 4
+	if w.Thorough() {
+		maxLen = 5
+	}
+	buf = buf[:0]
 	rec(0)
 }
